@@ -28,6 +28,9 @@ type Variant struct {
 	Amts                   []sdkmath.Int // trade / liquidity amounts
 	Params                 bool          // include fee parameter changes (C01)
 	SubSecond              bool          // block time with a non-zero sub-second part
+	// optional third fixture pool usdt/stake whose token is worth LESS than the standard coin (Tok3 > Std3):
+	// on a route that starts with it the intermediate standard amount is smaller than the token amount paid
+	Std3, Tok3 sdkmath.Int
 }
 
 type poolObs struct {
@@ -48,6 +51,7 @@ type opData struct {
 	fee          sdkmath.LegacyDec
 	which        string
 	missWhich    string
+	bad          bool // parameter value outside its valid range
 }
 
 // Driver implements mc.Driver.
@@ -56,7 +60,7 @@ type Driver struct{ V Variant }
 func New(v Variant) func() (*mc.Env, mc.Driver) {
 	return func() (*mc.Env, mc.Driver) {
 		rich := mc.Big(135)
-		coins := sdk.NewCoins(mc.CI(std, rich), mc.CI("btc", rich), mc.CI("eth", rich), mc.CI("usdt", rich))
+		coins := sdk.NewCoins(mc.CI(std, rich), mc.CI("btc", rich), mc.CI("eth", rich), mc.CI("usdt", rich), mc.CI("dai", rich))
 		e := mc.NewEnv(mc.EnvOptions{Balances: map[string]sdk.Coins{"A": coins, "B": coins, "C": coins, "R": nil}})
 		return e, &Driver{V: v}
 	}
@@ -100,8 +104,14 @@ func (d *Driver) Init(e *mc.Env) *mc.State {
 		MinLiquidity: sdkmath.OneInt(), Deadline: dl, Sender: mc.Addr("A").String()}), "pool1")
 	must(s.Deliver(e, "fx-pool2", &cstypes.MsgAddLiquidity{MaxToken: mc.CI("eth", d.V.Tok2), ExactStandardAmt: d.V.Std2,
 		MinLiquidity: sdkmath.OneInt(), Deadline: dl, Sender: mc.Addr("B").String()}), "pool2")
+	if !d.V.Std3.IsNil() && d.V.Std3.IsPositive() {
+		must(s.Deliver(e, "fx-pool3", &cstypes.MsgAddLiquidity{MaxToken: mc.CI("usdt", d.V.Tok3), ExactStandardAmt: d.V.Std3,
+			MinLiquidity: sdkmath.OneInt(), Deadline: dl, Sender: mc.Addr("B").String()}), "pool3")
+	}
 	return s
 }
+
+func (d *Driver) hasPool3() bool { return !d.V.Std3.IsNil() && d.V.Std3.IsPositive() }
 
 func lptOf(e *mc.Env, s *mc.State, counterparty string) (lpt string, escrow sdk.AccAddress, ok bool) {
 	p, exists := e.Coinswap.GetPool(s.Ctx, cstypes.GetPoolId(counterparty))
@@ -158,11 +168,22 @@ func (d *Driver) Enabled(e *mc.Env, s *mc.State) []mc.Op {
 			add("fee(1-1e-18)", opData{kind: "param", which: "fee", fee: sdkmath.LegacyOneDec().Sub(sdkmath.LegacySmallestDec())})
 			add("unifee(0)", opData{kind: "param", which: "uni", fee: sdkmath.LegacyZeroDec()})
 			add("unifee(0.5)", opData{kind: "param", which: "uni", fee: sdkmath.LegacyNewDecWithPrec(5, 1)})
+			// outside the valid ranges (fee in (0,1), one-sided fee in [0,1)): the property is stated for parameters
+			// in their valid ranges, so these must never be stored
+			add("!fee(0)", opData{kind: "param", which: "fee", fee: sdkmath.LegacyZeroDec(), bad: true})
+			add("!fee(1)", opData{kind: "param", which: "fee", fee: sdkmath.LegacyOneDec(), bad: true})
+			add("!fee(-0.003)", opData{kind: "param", which: "fee", fee: sdkmath.LegacyNewDecWithPrec(-3, 3), bad: true})
+			add("!unifee(1)", opData{kind: "param", which: "uni", fee: sdkmath.LegacyOneDec(), bad: true})
+			add("!unifee(-0.5)", opData{kind: "param", which: "uni", fee: sdkmath.LegacyNewDecWithPrec(-5, 1), bad: true})
 		}
 		return ops
 	}
 	// ---- C02 alphabet: vary one dimension at a time from the default
 	a := d.V.Amts[1]
+	if d.hasPool3() {
+		// a route that starts with the cheap token: more of it is paid than standard coin passes through the middle
+		routes = append(routes, [2]string{"usdt", "btc"})
+	}
 	for _, buy := range []bool{false, true} {
 		kind := "sell"
 		if buy {
@@ -214,7 +235,11 @@ func (d *Driver) Enabled(e *mc.Env, s *mc.State) []mc.Op {
 		add(fmt.Sprintf("%s(%s,btc,deadline=past)", k, who), v)
 	}
 	add("rmliq(A,btc,all)", opData{kind: "rmliq", who: "A", pool: "btc", all: true, bound: "loose"})
-	add("addliq(C,usdt,new-pool)", opData{kind: "addliq", who: "C", pool: "usdt", amt: a, bound: "loose"})
+	newDenom := "usdt"
+	if d.hasPool3() {
+		newDenom = "dai"
+	}
+	add("addliq(C,"+newDenom+",new-pool)", opData{kind: "addliq", who: "C", pool: newDenom, amt: a, bound: "loose"})
 	return ops
 }
 
@@ -228,7 +253,7 @@ func addrOf(name string) sdk.AccAddress {
 func (d *Driver) universe(e *mc.Env, s *mc.State) mc.Universe {
 	u := mc.Universe{"A": mc.Addr("A"), "B": mc.Addr("B"), "C": mc.Addr("C"), "R": mc.Addr("R"),
 		"feecollector": mc.ModuleAddr(authtypes.FeeCollectorName), "module": mc.ModuleAddr(cstypes.ModuleName)}
-	for _, cp := range []string{"btc", "eth", "usdt"} {
+	for _, cp := range []string{"btc", "eth", "usdt", "dai"} {
 		if _, esc, ok := lptOf(e, s, cp); ok {
 			u["pool-"+cp] = esc
 		}
@@ -314,7 +339,10 @@ func (d *Driver) apply(e *mc.Env, s *mc.State, op mc.Op) []mc.Finding {
 		} else {
 			p.UnilateralLiquidityFee = od.fee
 		}
-		s.Deliver(e, op.Name, &cstypes.MsgUpdateParams{Authority: mc.Authority().String(), Params: p})
+		out := s.Deliver(e, op.Name, &cstypes.MsgUpdateParams{Authority: mc.Authority().String(), Params: p})
+		if od.bad && out.OK {
+			return []mc.Finding{mc.F("C01/out-of-range-fee-accepted/"+od.which, "%s was accepted and stored: %s = %s lies outside the valid range", op.Name, od.which, od.fee)}
+		}
 		return nil
 	}
 	// resolve "all" amounts
@@ -378,7 +406,7 @@ func (d *Driver) apply(e *mc.Env, s *mc.State, op mc.Op) []mc.Finding {
 	}
 
 	pre := map[string]poolObs{}
-	for _, cp := range []string{"btc", "eth", "usdt"} {
+	for _, cp := range []string{"btc", "eth", "usdt", "dai"} {
 		if o, ok := d.obs(e, s, cp); ok {
 			pre[cp] = o
 		}
@@ -570,7 +598,7 @@ func (d *Driver) settlement(e *mc.Env, s *mc.State, od opData, mt string, got mc
 		fs = append(fs, mc.F("C02/"+rule+"/"+mt, format, a...))
 	}
 	lptDenoms := map[string]string{}
-	for _, cp := range []string{"btc", "eth", "usdt"} {
+	for _, cp := range []string{"btc", "eth", "usdt", "dai"} {
 		if l, _, ok := lptOf(e, s, cp); ok {
 			lptDenoms[cp] = l
 		}
@@ -685,7 +713,7 @@ func (d *Driver) settlement(e *mc.Env, s *mc.State, od opData, mt string, got mc
 
 func (d *Driver) Check(e *mc.Env, s *mc.State) []mc.Finding {
 	n := 0
-	for _, cp := range []string{"btc", "eth", "usdt"} {
+	for _, cp := range []string{"btc", "eth", "usdt", "dai"} {
 		if o, ok := d.obs(e, s, cp); ok && o.L.Sign() > 0 {
 			n++
 		}
